@@ -200,3 +200,11 @@ func BigFixed(x *big.Int, n int) ([]byte, bool) {
 	copy(out[n-len(b):], b)
 	return out, true
 }
+
+// MustBeFeasible: it must be possible (for some value of the symbolic inputs on
+// this path) that cond holds; natively a no-op unless cond is false.
+func MustBeFeasible(cond bool, label string) {}
+
+// IsFreshRandom / FreeOf are structural checks on symbolic terms (engine only).
+func IsFreshRandom(b []byte) bool       { return true }
+func FreeOf(wire, secret []byte) bool  { return true }
